@@ -17,11 +17,15 @@ TRUSTED = ["pandas isna / boolean row selection (modelled by incompleteRows / ke
 
 TERMS = ["x", "z", "f", "g", "f:x", "np.exp(z / 4)", "I(x + z)", "{z * 2}", "C(f)", "center(x)",
          "T(g, ref='w')", "`w z`", "scale(x)", "I(`w z` + 1)", "fun(x, k=z)", "fun(fun(x), z)",
-         "h:g", "bs(x, df=4)", "fun(z, k=fun(x, k=`w z`))", "cu", "co:x"]
+         "h:g", "bs(x, df=4)", "fun(z, k=fun(x, k=`w z`))", "cu", "co:x", "ni", "bl", "bl:x", "ni:f",
+         "I(ni + 1)"]
 POINTWISE = ["x", "z", "f", "g", "f:x", "I(x + z)", "{z * 2}", "`w z`", "I(`w z` + 1)", "fun(x, k=z)",
-             "fun(fun(x), z)", "h:g", "x:z", "C(f):z", "fun(z, k=fun(x, k=`w z`))"]
+             "fun(fun(x), z)", "h:g", "x:z", "C(f):z", "fun(z, k=fun(x, k=`w z`))", "ni", "ni:z"]
 GROUPS = ["(1 | g)", "(x | h)", "(z | g)", "(f | h)", "(`w z` | g)", "(fun(x, k=z) | h)"]
-NUM = ["y", "x", "z", "w z", "unused"]
+NUM = ["y", "x", "z", "w z", "unused", "ni", "bl"]
+# columns of pandas' nullable extension dtypes (missing value = pd.NA, integer / boolean dtype kept)
+NULLABLE = {"ni": "Int64", "bl": "boolean"}
+FILL = {c: (False if c == "bl" else 0 if c == "ni" else 0.0) for c in NUM}
 CAT = ["f", "g", "h"]
 CORPUS = ["y ~ x + (z | g)", "y ~ fun(x, k=z)", "y ~ `w z` + f", "yc ~ x", "y ~ f:x + (x | h)",
           "y ~ I(x + z) + C(f)"]
@@ -35,6 +39,8 @@ def make_frame(r):
     df = designs.gen_frame(r)
     df["w z"] = [r.randrange(-4, 5) / 2 for _ in range(len(df))]
     df["unused2"] = ["u"] * len(df)
+    df["ni"] = pd.array([r.randrange(-3, 8) for _ in range(len(df))], dtype="Int64")
+    df["bl"] = pd.array([r.random() < 0.5 for _ in range(len(df))], dtype="boolean")
     return df
 
 
@@ -42,9 +48,14 @@ def punch(r, df, cols, frac=0.2):
     out = df.copy()
     n = len(out)
     for c in cols:
-        k = max(1, int(n * frac * r.random()))
+        k = min(n - 1, max(1, int(n * frac * r.random())))
         rows = r.sample(range(n), k)
-        if c in CAT or c in ("cu", "co", "yc", "unused2"):
+        if c in NULLABLE:
+            vals = out[c].tolist()
+            for i in rows:
+                vals[i] = pd.NA
+            out[c] = pd.array(vals, dtype=NULLABLE[c])
+        elif c in CAT or c in ("cu", "co", "yc", "unused2"):
             out[c] = out[c].astype(object)
             for i in rows:
                 out.loc[i, c] = None if r.random() < 0.5 else np.nan
@@ -112,7 +123,9 @@ def explore(tier, seed, res=None, replay=None):
         cols = r.sample(NUM, r.randrange(0, 4))
         if not pointwise and r.random() < 0.5:
             cols += r.sample(CAT + ["unused2"], r.randrange(1, 3))
-        data = punch(r, df.reset_index(drop=True), cols) if cols else df
+        # now and then most rows are incomplete (more rows dropped than kept)
+        heavy = r.random() < 0.15
+        data = punch(r, df.reset_index(drop=True), cols, 1.6 if heavy else 0.2) if cols else df
         data = designs.scramble_index(r, data)       # incl. non-unique row labels
         jobs.append((formula, path, data, pointwise, cols))
     rows_req = [{"op": "c09_rows", "formula": f, "frame": designs.frame_json(d), "action": "drop"}
@@ -142,7 +155,28 @@ def explore(tier, seed, res=None, replay=None):
             res.mismatches.append({"case": case, "impl": {"var_names": vn},
                                    "model": {"used": ro["model_used"]}})
         drop = run(formula, data, "drop")
+        # no complete row: refused by the implementation and by the model alike (repair D29)
+        model_refuses = "err" in ro["model_step"]
+        if model_refuses != (not any(complete)) or (model_refuses and drop.get("err") != "ValueError"):
+            res.mismatches.append({"case": case, "impl": {"drop": drop.get("err", "a design")},
+                                   "model": {"step": ro["model_step"], "complete_rows": sum(complete)}})
+        if model_refuses and drop.get("err") == "ValueError":
+            res.count("refused:no-complete-row")
+            res.traces += 1
+            if run(formula, data, "error").get("err") != "ValueError":
+                res.failures.append({"case": case, "impl": "accepted", "expected": "ValueError",
+                                     "finding": None, "why": "na_action='error' accepted incomplete rows"})
+            continue
         if "err" in drop:
+            # refused although a complete row exists: legitimate only if the filtered run is
+            # refused in the same way (an error of the formula or of the data that is left)
+            filt = run(formula, data.loc[[bool(c) for c in complete]].reset_index(drop=True), "drop")
+            if filt.get("err") != drop["err"]:
+                res.failures.append({"case": case, "impl": {"drop": drop["err"]},
+                                     "expected": {"filtered run": filt.get("err", "a design")},
+                                     "finding": None,
+                                     "why": f"na_action='drop' raises {drop['err']} but the run on the "
+                                            "frame without the incomplete rows does not"})
             res.count("impl_error:" + drop["err"])
             continue
         res.traces += 1
@@ -175,7 +209,7 @@ def explore(tier, seed, res=None, replay=None):
                 problems.append(f"na_action={bad!r} not refused")
         if pointwise and not any(c in CAT for c in cols):
             ps = run(formula, data, "pass")
-            ref = run(formula, data.fillna({c: 0.0 for c in NUM}), "drop")
+            ref = run(formula, data.fillna(FILL), "drop")
             if "err" in ps or "err" in ref:
                 problems.append(f"pass: {ps.get('err')} / reference {ref.get('err')}")
             else:
